@@ -137,7 +137,7 @@ def model_invariants(ctx, info):
     for d, v in zip(dec, vals):
         order = tuple(tuple(sorted(id2abs[i] for i in b)) for b in d)
         t = info.ref.score(order)
-        if abs(float(v) - t) > 1e-6 * max(1.0, abs(t)):
+        if abs(float(v) - t) > 1e-6:
             ctx.violation('ilp-objective-differs-from-score', dict(case, ranking=order), float(v), t)
             return
     ctx.count('models_checked_against_all_rankings')
@@ -166,7 +166,7 @@ def oracle(ctx, info):
         ctx.violation('no-ranking', info.case(), 0, '>=1')
         return
     opt, mins = info.ref.optimum
-    tol = 1e-9 * max(1.0, abs(opt))
+    tol = 1e-9
     for r in got:
         sc = info.ref.score(r)
         if sc > opt + tol:
@@ -264,7 +264,7 @@ def run_family(ctx, sh):
                         ctx.violation('malformed-consensus', case, bad, None)
                         continue
                     sc = refmodel.score_from_table(back.ranking(r), table)
-                    if sc > opt + 1e-9 * max(1.0, abs(opt)):
+                    if sc > opt + 1e-9:
                         ctx.violation('not-a-global-optimum', dict(case, result=back.ranking(r)), sc, opt)
                     ctx.count('family_runs')
                     if opt > 0:
